@@ -1,17 +1,20 @@
 """C05 - address <-> locking script mapping standard and mutually inverse."""
-CONTRACT_MODULES = ['contracts.encoding', 'contracts.keys_hd', 'contracts.keys_public', 'contracts.keys_addr']
+CONTRACT_MODULES = ['contracts.encoding', 'contracts.scripts', 'contracts.keys_hd', 'contracts.keys_public', 'contracts.keys_addr', 'contracts.std_scripts']
 def _c():
     import contracts.keys_addr as a
-    return list(a.ADDR_CASES)
+    import contracts.std_scripts as st
+    return list(a.ADDR_CASES) + list(st.CASES) + ['bitcoinlib.scripts.data_pack']
 CONTRACTS = _c()
-LEVEL = 'other'
-LEVEL_TEXT = ('MOSTLY BOUNDED. Proved (shared with C04): Address(...) for every network x address kind carries the standard payload hash and prefix '
-              '(77 configurations, symbolic data). The address <-> locking-script mapping itself (Output.__init__, Script parsing / template '
-              'instantiation, deserialize_address) is evaluated natively: both directions, every network, every kind incl. witness versions '
+LEVEL = 'proof'
+LEVEL_TEXT = ('Proved: (1) shared with C04, Address(...) for every network x address kind carries the standard payload hash and prefix (77 configurations, '
+              'symbolic data); (2) the script side of the mapping: Script(script_types=[t], public_hash=h).serialize() - the template instantiation Output.__init__ '
+              'uses - is exactly the standard P2PKH / P2SH / P2WPKH / P2WSH locking script for EVERY payload, and OP_n <32 bytes> for every witness version 1..16. '
+              'BOUNDED (native): the glue between the two (Output.__init__ choosing type / payload / version from an address string or object, Script parsing, '
+              'deserialize_address) is evaluated natively: both directions, every network, every kind incl. witness versions '
               '2..16, random payloads, cross-network refusal, against standard script templates and the reference text encoders.')
 LEVEL_NOTE = ('Output.__init__ / Script.parse_bytesio / _get_script_types are outside the verified subset in this build (string and table driven '
               'classification); one open finding: an Address OBJECT of another network is adopted instead of refused.')
-NOT_COVERED = ['Output.__init__, Script.parse_bytesio, Script(script_types=...) as proofs', 'outputs created from HD keys / public keys / hashes (only '
+NOT_COVERED = ['Output.__init__ and Script.parse_bytesio as proofs (script -> address direction and the address-string decoding are native only)', 'outputs created from HD keys / public keys / hashes (only '
                'address strings, Address objects and raw scripts are exercised)']
 TRUSTED = ['spec/base58.py, spec/bech32.py, standard script templates in bounded/c05_scripts.py']
 EXPLANATION = ('Deductive coverage is limited to Address.__init__ (payload and prefix per configuration); the script mapping is a bounded '
